@@ -1913,4 +1913,94 @@ theorem plainKey_ident (k : Text) (h : isIdent k = true) : plainKey k = true := 
     · exact ⟨(identStart_ne' _ h.1).1, (identStart_ne' _ h.1).2, identStart_ne_dollar _ h.1⟩
     · exact ⟨(identRest_ne' _ (h.2 c hm)).1, (identRest_ne' _ (h.2 c hm)).2, identRest_ne_dollar _ (h.2 c hm)⟩
 
+/-- `values.append` anywhere keeps the identity and the length of `attrpath_order` of a set -/
+theorem shape_updSet_appF (c : Nat) (nb : Node) (T : Node) :
+    (updSet c (appF nb) T).setSid? = T.setSid? ∧
+    (updSet c (appF nb) T).setOrder.length = T.setOrder.length := by
+  cases T with
+  | set s vs o m r =>
+    by_cases h : s = c
+    · simp [updSet, h, appF, setSid?, setOrder]
+    · simp [updSet, h, setSid?, setOrder, updSetL_eq_map]
+  | _ => simp [updSet, setSid?, setOrder]
+
+theorem setAttrpathWalk_shape (ks : List Text) : ∀ (cur : Node) (d d1 : Doc) (current : Node),
+    setAttrpathWalk cur ks d = (.ok current, d1) →
+    d1.target.setSid? = d.target.setSid? ∧ d1.target.setOrder.length = d.target.setOrder.length := by
+  induction ks with
+  | nil =>
+    intro cur d d1 current h
+    rw [setAttrpathWalk_nil] at h
+    injection h with _ h2; subst h2; exact ⟨rfl, rfl⟩
+  | cons k ks ih =>
+    intro cur d d1 current h
+    simp only [setAttrpathWalk] at h
+    cases hg : findNamedBinding cur.setValues k (some true) with
+    | some b =>
+      simp only [hg] at h
+      cases hv : b.bindValue? with
+      | none => simp [hv] at h
+      | some v =>
+        cases v with
+        | set s2 vs2 o2 m2 r2 => simp only [hv] at h; exact ih _ d d1 current h
+        | _ => simp [hv] at h
+    | none =>
+      simp only [hg] at h
+      cases hg2 : (findNamedBinding cur.setValues k (some false)).isSome with
+      | true => simp [hg2] at h
+      | false =>
+        simp only [hg2, Bool.false_eq_true, if_false] at h
+        cases hs : cur.setSid? with
+        | none => simp [hs] at h
+        | some c =>
+          simp only [hs, EditM.bind_apply, fresh_apply, appendValue_eq] at h
+          obtain ⟨h1, h2⟩ := ih _ _ d1 current h
+          have := shape_updSet_appF c (.bind (d.next + 1) k true (.set d.next [] [] cur.setMultiline false) [] []) d.target
+          exact ⟨h1.trans this.1, h2.trans this.2⟩
+
+/-- where the loop of `_set_attrpath_value` ends: in a set it has just created (empty), or — nothing
+    created — in the set found along the names -/
+theorem setAttrpathWalk_origin (ks : List Text) : ∀ (cur : Node) (d d1 : Doc) (current : Node),
+    cur.isSet = true → (denote cur).nodup = true →
+    setAttrpathWalk cur ks d = (.ok current, d1) →
+    current.setValues = [] ∨ (d1 = d ∧ subAt cur ks = some current) := by
+  induction ks with
+  | nil =>
+    intro cur d d1 current _ _ h
+    rw [setAttrpathWalk_nil] at h
+    injection h with h1 h2; injection h1 with h1; subst h1 h2; exact Or.inr ⟨rfl, rfl⟩
+  | cons k ks ih =>
+    intro cur d d1 current hset hn h
+    obtain ⟨c, vs, o, m, r, rfl⟩ := (isSet_iff cur).mp hset
+    simp only [denote_set, AttrTree.nodup_node] at hn
+    simp only [setAttrpathWalk] at h
+    cases hg : findNamedBinding (Node.set c vs o m r).setValues k (some true) with
+    | some b =>
+      obtain ⟨i, val, bf, af, rfl, hm⟩ := findNamedBinding_some _ _ _ _ hg
+      simp only [hg, bindValue?] at h
+      cases val with
+      | set s2 vs2 o2 m2 r2 =>
+        simp only at h
+        rcases ih _ d d1 current rfl (nodup_of_mem_bind vs i k true _ bf af hn hm) h with h1 | ⟨h1, h2⟩
+        · exact Or.inl h1
+        · right
+          refine ⟨h1, ?_⟩
+          have hfb := findBinding_of_mem vs k i true _ bf af hn hm
+          simp [subAt, stepInto, setValues, hfb, bindValue?, h2]
+      | _ => simp at h
+    | none =>
+      simp only [hg] at h
+      cases hg2 : (findNamedBinding (Node.set c vs o m r).setValues k (some false)).isSome with
+      | true => simp [hg2] at h
+      | false =>
+        simp only [hg2, Bool.false_eq_true, if_false, setSid_set, EditM.bind_apply, fresh_apply, appendValue_eq,
+          setMultiline] at h
+        left
+        rcases ih _ _ d1 current rfl (by simp [AttrTree.nodupL]) h with h1 | ⟨_, h2⟩
+        · exact h1
+        · obtain ⟨_, rfl⟩ := subAt_empty_set _ _ _ _ _ _ h2; rfl
+
+theorem getLast_cons_snoc {α} (a : α) (l : List α) (x : α) : (a :: (l ++ [x])).getLast? = some x := by
+  rw [← List.cons_append, List.getLast?_append]; simp
+
 end Nima
